@@ -961,6 +961,10 @@ func (f *bpFn) prove(pt point, g goal, hyps []sfact, depth int) bool {
 	if f.proveFactPhiSplit(pt, g, facts, dqs) {
 		return true
 	}
+	// case split on a builtin max/min that occurs in the facts: max(a, b) is a or b
+	if f.proveFactMinMaxSplit(g, facts, dqs) {
+		return true
+	}
 	// case split / induction on a phi occurring in the goal
 	for _, t := range []term{g.u, g.v} {
 		ph, ok := t.v.(*ssa.Phi)
@@ -1055,6 +1059,70 @@ func (f *bpFn) proveFactPhiSplit(pt point, g goal, facts []dfact, dqs []diseq) b
 				ng.v, ng.c = et, ng.c+eo
 			}
 			if inconsistent(sub) || entails(sub, append(append([]diseq{}, dqs...), edq...), ng) {
+				continue
+			}
+			all = false
+			break
+		}
+		if all {
+			return true
+		}
+	}
+	return false
+}
+
+// proveFactMinMaxSplit: some fact mentions M = max(a, b) (or min): in each of the two cases M = a (with
+// b <= a, resp. a <= b for min) and M = b the goal must follow, or the case be contradictory.
+func (f *bpFn) proveFactMinMaxSplit(g goal, facts []dfact, dqs []diseq) bool {
+	seen := map[*ssa.Call]bool{}
+	var cands []*ssa.Call
+	for _, ft := range facts {
+		for _, t := range []term{ft.u, ft.v} {
+			c, ok := t.v.(*ssa.Call)
+			if !ok || t.k != tInt || seen[c] {
+				continue
+			}
+			seen[c] = true
+			if b, ok := c.Call.Value.(*ssa.Builtin); ok && (b.Name() == "max" || b.Name() == "min") && len(c.Call.Args) == 2 {
+				cands = append(cands, c)
+			}
+		}
+	}
+	if len(cands) > 3 {
+		cands = cands[:3]
+	}
+	for _, c := range cands {
+		isMax := c.Call.Value.(*ssa.Builtin).Name() == "max"
+		mt := term{tInt, c}
+		all := true
+		for k := 0; k < 2; k++ {
+			et, eo := f.intTerm(c.Call.Args[k])
+			ot, oo := f.intTerm(c.Call.Args[1-k])
+			sub := make([]dfact, 0, len(facts)+2)
+			for _, ft := range facts {
+				nf := ft
+				if nf.u == mt {
+					nf.u, nf.c = et, nf.c-eo
+				}
+				if nf.v == mt {
+					nf.v, nf.c = et, nf.c+eo
+				}
+				sub = append(sub, nf)
+			}
+			// the chosen argument dominates the other one
+			if isMax {
+				sub = append(sub, dfact{ot, et, eo - oo, "max is this argument"}) // (ot+oo) - (et+eo) <= 0
+			} else {
+				sub = append(sub, dfact{et, ot, oo - eo, "min is this argument"})
+			}
+			ng := g
+			if ng.u == mt {
+				ng.u, ng.c = et, ng.c-eo
+			}
+			if ng.v == mt {
+				ng.v, ng.c = et, ng.c+eo
+			}
+			if inconsistent(sub) || entails(sub, dqs, ng) {
 				continue
 			}
 			all = false
